@@ -324,6 +324,10 @@ func (in *Interp) initExterns() {
 		in.unwind = int(a[0].(*Term).Int())
 		return nil
 	})
+	sx("ForkIndex", func(in *Interp, _ *frame, _ *ssa.Function, a []value) value {
+		in.forkIndex = a[0].(*Term).IsTrue()
+		return nil
+	})
 	sx("MapOrderAll", func(in *Interp, _ *frame, _ *ssa.Function, a []value) value {
 		in.mapOrderAll = true
 		return nil
